@@ -41,6 +41,14 @@ CHECKS = {
    text="The TLC-evaluated transcription WireFormat.tla with the frozen dictionary WADict.tla is the independent implementation: (a) the library's bytes for every enumerated tree must equal the encoding the reference computes and decodes back to the tree; (b) every permitted alternative per position (16-bit list header, 20/31-bit lengths, literal instead of token, packed or raw, JID without user, token/packed-valued node content), all alternatives at once, and the zlib-compressed frame must be decoded by the library to the tree; (c) the 236 + 1024 dictionary entries are compared one by one with the reference and round-tripped through getToken/getIndex.",
    note="No copy of WhatsApp's dictionary other than the repository's exists offline: the reference is a frozen transcription (detects change and index arithmetic errors, cannot certify the pinned table against the servers). Alternatives are enumerated one position at a time plus all at once.",
    technique="TLA+ transcription evaluated by TLC as independent reference encoder/decoder + entry-by-entry dictionary comparison"),
+ "C06": dict(level="model_checking", design="4/C06",
+   text="Routing.tla transcribes the claim guards of the 15 protocol layers and the encryption layers' pass-through over stanza features; TLC evaluates, for every kind of the hand-written catalogue (about 150 kinds: messages by payload/media type, receipts, acks, presence, chat state, every iq request and result, notifications, calls, ib, auth, encrypt notifications) and all 16 module selections, the set of claiming layers and checks it is exactly the owner when the owning module is selected and empty otherwise. Every (kind, selection, encryption on/off) row is replayed on a real assembled stack between probes: number and class of entities at the top, field-wise equality with the injected stanza, number of stanzas going down; outgoing entities: exactly one stanza equal to the entity's specified serialisation (messages with encryption on: exactly one entry into the send layer).",
+   note="Concrete stanzas and expectations come from the catalogue (harness/catalogue.py, extra_kinds.py); encrypted message kinds are followed further by C03. Attributes that an entity's serialisation adds are left to C09.",
+   technique="TLA+ guard model evaluated by TLC over all module selections + replay of every row into the real assembled stack"),
+ "C07": dict(level="model_checking", design="4/C07",
+   text="Same model and rig as C06, reaction part: TLC computes for every incoming kind and module selection the set of layers that answer downward and checks it is a singleton exactly where the statement demands an acknowledgement; the replay compares the stanzas actually sent down with the hand-built expected ack / receipt / pong (id, class, type, to, participant, call-id), for all notification types incl. unknown ones and encrypt notifications with a real key store, all call kinds, server pings incl. ids colliding with every outstanding request kind, and unpresentable message payloads in text / media / other message types, under all 16 module selections with and without the encryption layers.",
+   note="The documented exception (picture notification that is neither set nor delete) is only required to raise. Key-management iqs of the encryption layers are not counted as reactions.",
+   technique="TLA+ guard model evaluated by TLC over all module selections + replay of every row into the real assembled stack"),
 }
 NA_REASON = "check not built yet in this session (planned: see DESIGN.md section 4)"
 
